@@ -27,6 +27,11 @@ def rand_container_attrs(rng, level, rich=True):
             a['meta_encoding'] = rng.choice(ENCS)
         if rng.random() < 0.2:
             a['meta_format'] = 'json'
+    if rich and rng.random() < 0.04:
+        # a name that cannot be written as an option value, or that names no codec: the typed attribute takes any
+        # string; serialising such a tree must be refused (or, for an unknown codec on a container, carried)
+        a[rng.choice(['encoding', 'meta_encoding', 'diff_encoding'] if level == 2 else ['encoding', 'preamble_encoding', 'meta_encoding'])] = \
+            rng.choice(['latin-1\n', 'utf 8', 'utf-8 ', 'utf-9', 'UTF-8\r'])
     if level == 2 and rng.random() < 0.7:
         a['diff'] = rng.choice(pools.DIFFS)
         if rng.random() < 0.3:
